@@ -26,7 +26,7 @@ MAGS = [0.5, 1.0, 3.0, 16.0, 50.0, 1e2, 1e3, 1e4, 1e6]
 
 def gen_cases(tier, seed):
     cases = []
-    reps = 1 if tier == "quick" else 5
+    reps = 1 if tier == "quick" else 20
     for rep in range(reps):
         for world in ("f64", "f32"):
             for t in ("exp", "tanh", "sigmoid", "logit", "cauchycdf", "cauchycdfinv"):
